@@ -1,0 +1,8 @@
+//go:build !verif
+
+// Package verifhook provides named hook points for the runtime-verification
+// harness. Without the "verif" build tag they compile to nothing.
+package verifhook
+
+// At marks a hook point; in production builds it is an empty function.
+func At(point string) {}
